@@ -64,7 +64,12 @@ def formula_set(tier):
 def shards(tier):
     fs = formula_set(tier)
     per = 20 if tier == 'quick' else 8
-    return [{'formulas': [F.to_json(f) for f in fs[i:i + per]]} for i in range(0, len(fs), per)]
+    out = [{'formulas': [F.to_json(f) for f in fs[i:i + per]]} for i in range(0, len(fs), per)]
+    deep = [f for f in F.deep_formulas(EX_U, (), two_var=False) if f[2] != F.PX and not F.has_op(f, ('rise',))]
+    deep = (deep[::3] if tier == 'quick' else deep) + [('always', None, F.X), ('eventually', None, F.X), ('historically', None, ('next', F.X)),
+                                                       ('eventually', (7, 8), F.X), ('always', (0, 8), ('or', F.X, ('next', F.X)))]
+    out += [{'formulas': [F.to_json(f) for f in deep[i:i + 2]], 'deep': True} for i in range(0, len(deep), 2)]
+    return out
 
 
 def reported_positions(ex, vs, n):
@@ -126,6 +131,8 @@ def run_shard(shard, tier, res):
         n = 4
         if len(vs) == 1 and F.size(f) == 3:
             n = 5
+        if shard.get('deep'):
+            n = 9 if tier == 'quick' else 10
         if tier != 'quick' and len(vs) == 1:
             n = 6
         prev = None
